@@ -715,13 +715,61 @@ func checkC18(p *Prog, r *Result, tier string) {
 	r.Explanation = "Only the wrapper clauses are decided, not mutual exclusion (that is a property of etcd concurrency.Mutex / redislock and their servers). " +
 		"TL1: every TryLock reaches only the non-blocking primitive (etcd Mutex.TryLock; redislock Obtain with nil options) and never the blocking one. " +
 		"TL2: every Lock calls the blocking primitive under a context derived by context.WithTimeout(ctx, <receiver's timeout field>) and propagates its error; the redis retry strategy is an unbounded, stateless backoff (LinearBackoff/ExponentialBackoff) so that only the wait timeout ends the wait. " +
-		"TL3: every Unlock releases only its own acquisition (etcd: OpDelete only inside Then() of a Txn whose If() is mutex.IsOwner(); redis: Release on the handle stored by this lock's own Obtain; no other delete; no direct redis command anywhere in the wrapper package)."
+		"TL3: every Unlock releases only its own acquisition (etcd: OpDelete only inside Then() of a Txn whose If() is mutex.IsOwner(); redis: Release on the handle stored by this lock's own Obtain; no other delete; no direct redis command anywhere in the wrapper package). TL4: every TTL the wrappers hand to the lock library (Obtain, Refresh, session WithTTL) is the lock's configured TTL."
 	r.NotCovered = "clause 1 (at most one holder over all schedules) — library/server behaviour; fairness; lease expiry timing"
 	r.Assumptions = []string{"A4 etcd concurrency.Mutex and muroq/redislock implement their documented semantics"}
 	_, impls := lockImpls(p, r)
 	r.min("TL1", 2)
 	r.min("TL2", 2)
 	r.min("TL3", 2)
+	// TL4: the lease a holder gets is the configured TTL: wherever the wrappers hand a TTL to the lock library (redislock
+	// Obtain/Refresh, etcd session WithTTL) it is the lock's own ttl (field or constructor parameter), never a value
+	// derived from a wait deadline or anything else
+	r.min("TL4", 2)
+	for _, pkg := range []string{"lock/redis", "lock/etcdlock"} {
+		for _, fn := range p.sortedFuncs(pkg) {
+			if fn.Body == nil || relPath(fn.Pkg.PkgPath) != pkg {
+				continue
+			}
+			fn.inspectBody(func(n ast.Node) bool {
+				c, ok := n.(*ast.CallExpr)
+				if !ok || fn.Callee(c) == nil {
+					return true
+				}
+				f := fn.Callee(c)
+				if f.Pkg() == nil || !(strings.Contains(f.Pkg().Path(), "redislock") || strings.Contains(f.Pkg().Path(), "concurrency")) {
+					return true
+				}
+				sig, _ := f.Type().(*types.Signature)
+				if sig == nil {
+					return true
+				}
+				for i := 0; i < sig.Params().Len() && i < len(c.Args); i++ {
+					pn := strings.ToLower(sig.Params().At(i).Name())
+					if pn != "ttl" && pn != "lockttl" && !(f.Name() == "WithTTL" && i == 0) {
+						continue
+					}
+					key := fmt.Sprintf("%s / the TTL handed to %s is the lock's configured TTL", fn.Name, f.Name())
+					okArg := false
+					ast.Inspect(c.Args[i], func(x ast.Node) bool {
+						switch y := x.(type) {
+						case *ast.SelectorExpr:
+							if y.Sel.Name == "ttl" {
+								okArg = true
+							}
+						case *ast.Ident:
+							if o := fn.objOf(y); o != nil && y.Name == "ttl" && fn.paramIndex(o) >= 0 {
+								okArg = true
+							}
+						}
+						return true
+					})
+					r.check(okArg, "TL4", key, p.pos(c), "`"+exprStr(c.Args[i])+"`", "the lease length handed to the lock library is `"+exprStr(c.Args[i])+"`, not the lock's configured TTL: a holder's key can expire (and another contender acquire it) while the holder is still inside the TTL it was promised")
+				}
+				return true
+			})
+		}
+	}
 	prims := map[string]bool{etcdMutexLock: true, etcdMutexTryLock: true, redisObtain: true}
 	for _, nt := range impls {
 		tname := strings.TrimPrefix(nt.String(), modPath+"/")
